@@ -248,6 +248,8 @@ pub struct Reparse {
 #[derive(Clone, Debug)]
 pub struct RunOut {
     pub load: Load,
+    /// the header column names as the parser saw them
+    pub header: Vec<String>,
     pub sigs: Vec<RealSig>,
     pub iters: Vec<IterHist>,
     pub statik: Option<StaticHist>,
@@ -394,13 +396,14 @@ fn parse_and_bind(
 }
 
 pub fn run_case(case: &Case) -> RunOut {
-    let text = case.program.to_text();
+    let text = case.source_text();
     run_case_text(case, &text)
 }
 
 pub fn run_case_text(case: &Case, text: &str) -> RunOut {
     let mut out = RunOut {
         load: Load::Ok,
+        header: vec![],
         sigs: vec![],
         iters: vec![],
         statik: None,
@@ -426,6 +429,7 @@ pub fn run_case_text(case: &Case, text: &str) -> RunOut {
         Ok((p, Ok(tc))) => (p, tc),
     };
     out.sigs = tc.signals.iter().map(real_sig).collect();
+    out.header = parsed.signals.clone();
 
     // further parses of the same text under other hash orders
     for hs in &case.reparse {
